@@ -20,6 +20,9 @@ ASSUMPTIONS = ["default tokenizer / analyzer='word' (the property's domain)",
                "inconsistent) the traceable one must refuse it too; such cases are counted, not compared"]
 
 WORDS = ["aa", "bb", "cc", "dd", "the", "is", "and", "of", "cat", "The", "IS", "Cat", "dog", "x1"]
+# tokens that continue another token with a digit, an underscore or a capital letter: scikit-learn orders n-grams like
+# their space-joined form, and a space sorts before all of these
+CONT = ["mp", "mp3", "mp_3", "python", "python3", "user", "user_id", "Git", "GitHub", "git", "x1", "x", "x_", "x_1"]
 # tokens whose lower case and case folding differ (sharp s, final sigma, long s, dotted capital I), accented and
 # non-Latin tokens, upper / lower pairs of them
 INTL = ["straße", "strasse", "Straße", "STRASSE", "ΟΔΟΣ", "οδος", "οδοσ", "fluſs", "fluss", "İstanbul", "istanbul",
@@ -35,6 +38,7 @@ def cases(tier, seed):
 def make_corpus(rng, ndocs):
     docs = []
     intl = rng.rand() < 0.25
+    cont = (not intl) and rng.rand() < 0.2
     for _ in range(ndocs):
         r = rng.rand()
         if r < 0.12:
@@ -48,6 +52,8 @@ def make_corpus(rng, ndocs):
         vocab = WORDS if rng.rand() < 0.7 else WORDS[:5]
         if intl:
             vocab = INTL + WORDS[:4]
+        elif cont:
+            vocab = CONT + WORDS[:2]
         toks = [vocab[rng.randint(len(vocab))] for _ in range(ln)]
         if ln >= 2 and rng.rand() < 0.3:
             toks[1] = toks[0]
@@ -128,6 +134,36 @@ def run_case(case, ctx):
         cfg = {"vectorizer": name, "options": {k: (list(v) if isinstance(v, tuple) else v) for k, v in o.items()},
                "corpus": corpus, "sub": case["sub"]}
         K = "C14/%s/" % name
+        # ---- documents that need decoding: the same corpus as bytes, and as files read by the vectorizer itself
+        if case["sub"] % 4 == 0 and o["ngram_range"][0] >= 1:
+            import os
+            import shutil
+            import tempfile
+            tmpd = tempfile.mkdtemp(prefix="c14-")
+            try:
+                paths = []
+                for j_, doc in enumerate(corpus):
+                    paths.append(os.path.join(tmpd, "doc%d.txt" % j_))
+                    with open(paths[-1], "w", encoding="utf-8") as f_:
+                        f_.write(doc)
+                for dname, docs_, extra_ in (("bytes", [d_.encode("utf-8") for d_ in corpus], {}),
+                                             ("filename", paths, {"input": "filename"})):
+                    p2, c2 = Parent(**dict(o, **extra_)), Child(**dict(o, **extra_))
+                    m2p, e2p = attempt(lambda: p2.fit_transform(docs_))
+                    m2c, e2c = attempt(lambda: c2.fit_transform(docs_))
+                    ctx.hit("documents." + dname)
+                    if (e2p is None) != (e2c is None) or (e2p is not None and type(e2p) is not type(e2c)):
+                        ctx.violation(K + "refusal-differs/%s-documents" % dname, "scikit-learn: %r, traceable: %r" % (
+                            e2p, e2c), cfg=cfg)
+                    elif e2p is None:
+                        same_v = {" ".join(k_) if isinstance(k_, tuple) else k_: v_ for k_, v_ in c2.vocabulary_.items()} \
+                            == dict(p2.vocabulary_)
+                        if m2p.shape != m2c.shape or not numpy.allclose(m2p.toarray(), m2c.toarray(), rtol=1e-12,
+                                                                         atol=1e-14) or not same_v:
+                            ctx.violation(K + "matrix-differs/%s-documents" % dname, "documents given as %s: the matrix or "
+                                          "the vocabulary differs from scikit-learn's" % dname, cfg=cfg)
+            finally:
+                shutil.rmtree(tmpd, ignore_errors=True)
         p, c = Parent(**o), Child(**o)
         container = ["list", "list", "ndarray", "series", "tuple"][case["sub"] % 5]
         if container == "ndarray":
